@@ -72,17 +72,34 @@ Theorem C19_unmapped_outputs_plain : forall specs inputs outputs li ds,
 Proof. exact unmapped_outputs_plain. Qed.
 Print Assumptions C19_unmapped_outputs_plain.
 
-(* selecting by coordinate value: if the coordinate values are distinct, the element selected by the n-th
-   value is the denotation (C01) of the variable at index n along that axis.
-   Partial in the sense of the assumptions: label lookup itself is xarray's; `sel_label` is its
-   specification (look the label up, slice at the position found). *)
-Theorem C19_sel_returns_element_partial :
-  forall (body : mfunc -> env -> result (list val)) p inputs user den o (a : nd str) q labels n v,
-  denote_run body p inputs user = Ok den -> dict_get (d_out den) o = Some (VA a) ->
+(* selecting by coordinate value.  `sel_label` is the specification of label based selection on a
+   one-dimensional coordinate (look the value up, slice the variable at the position found); the lookup
+   itself is xarray's (observed by the harness on every coordinate value, not modelled).
+   (1) with distinct coordinate values, selecting by the n-th value is positional selection of index n,
+       and the selected array holds at j the element of the variable at (j completed by n at dimension q) *)
+Theorem C19_sel_returns_element_partial : forall (a : nd str) q labels n v,
+  nd_wf a = true -> q < length (shp a) -> length labels = nth q (shp a) 0 ->
   NoDup labels -> nth_error labels n = Some v ->
-  sel_label a q labels v = nd_index a (slice_key (length (shp a)) q n).
-Proof. intros body p inputs user den o a q labels n v _ _. exact (sel_label_nth a q labels n v). Qed.
+  exists b, sel_label a q labels v = Ok b
+            /\ shp b = remove_at q (shp a)
+            /\ forall j, in_bounds (shp b) j = true -> nd_get b j = nd_get a (insert_at q n j).
+Proof. exact (@sel_returns_element str). Qed.
 Print Assumptions C19_sel_returns_element_partial.
+
+(* (2) against the denotation of C01 (Model/MapDenote.v), for an arbitrary user function `body`: if the
+       variable is the jo-th output of a mapped function, the element selected by the n-th coordinate
+       value is, at every remaining index j, the denoted element at index n along that axis *)
+Theorem C19_sel_returns_denotation_partial :
+  forall (body : mfunc -> env -> result (list val)) f ms kw sh mask arrs jo a q labels n v,
+  denote_mapped body f ms kw sh mask = Ok arrs -> nth_error arrs jo = Some a ->
+  q < length sh -> length labels = nth q sh 0 -> NoDup labels -> nth_error labels n = Some v ->
+  exists b, sel_label a q labels v = Ok b
+            /\ shp b = remove_at q sh
+            /\ forall j, in_bounds (shp b) j = true ->
+                 exists x, nd_get b j = Some x
+                           /\ denote_elem body f ms kw mask jo (insert_at q n j) = Ok x.
+Proof. exact sel_returns_denotation. Qed.
+Print Assumptions C19_sel_returns_denotation_partial.
 
 (* ---------- the part of the property that the code does not satisfy ---------- *)
 (* Full statement (false):  forall c, valid c = true -> spec_ok c (run c) = true.
@@ -170,4 +187,17 @@ Proof.
   - intros a Ha E. vm_compute in Ha. repeat (destruct Ha as [<-|Ha]; [try discriminate E; reflexivity|]). destruct Ha.
   - vm_compute. auto.
   - vm_compute. auto.
+Qed.
+
+(* non-vacuity of the selection theorems: a 2x3 variable with distinct labels on its second dimension *)
+Example C19_example_sel :
+  let a := {| shp := [2; 3]; dat := [s "a0"; s "a1"; s "a2"; s "a3"; s "a4"; s "a5"] |} in
+  let labels := [s "u_0"; s "u_1"; s "u_2"] in
+  nd_wf a = true /\ 1 < length (shp a) /\ length labels = nth 1 (shp a) 0 /\ NoDup labels
+  /\ nth_error labels 1 = Some (s "u_1")
+  /\ sel_label a 1 labels (s "u_1") = Ok {| shp := [2]; dat := [s "a1"; s "a4"] |}.
+Proof.
+  cbv zeta. repeat split; try reflexivity.
+  - cbn. lia.
+  - apply nodup_str_NoDup. reflexivity.
 Qed.
